@@ -207,6 +207,20 @@ pub mod vnet {
         #[verifier::external_body] pub fn incoming(&self) -> (r: Vec<Result<Stream, IoError>>)
             ensures forall|i: int| 0 <= i < r@.len() ==> (#[trigger] r@[i] matches Err(e) ==> e.origin@ == 1) { unimplemented!() }
     }
+    // iterator adapters on `incoming()` (rule T-ITER).  Keeping the accepted connections and dropping the failed accepts:
+    #[verifier::external_body]
+    pub fn accepted(v: Vec<Result<Stream, IoError>>) -> (r: Vec<Stream>)
+        ensures r@.len() <= v@.len() { unimplemented!() }
+    // map_while(Result::ok) / take_while(Result::is_ok): the stream *ends* at the first failed accept - the loop over it is over
+    // as soon as one connection attempt fails, which a peer (or a burst of peers) can bring about
+    #[verifier::external_body]
+    pub fn until_first_error(v: Vec<Result<Stream, IoError>>) -> (r: Vec<Stream>)
+        requires forall|i: int| 0 <= i < v@.len() ==> (#[trigger] v@[i]) is Ok, //@C17.a_failed_accept_does_not_end_the_accept_loop
+        ensures r@.len() == v@.len() { unimplemented!() }
+    #[verifier::external_body]
+    pub fn results_until_first_error(v: Vec<Result<Stream, IoError>>) -> (r: Vec<Result<Stream, IoError>>)
+        requires forall|i: int| 0 <= i < v@.len() ==> (#[trigger] v@[i]) is Ok, //@C17.a_failed_accept_does_not_end_the_accept_loop
+        ensures r@ == v@ { unimplemented!() }
     // std::thread::spawn: the closure runs, so its body's obligations are checked with no assumption on its inputs
     #[verifier::external_body]
     pub fn spawn<F: FnOnce() -> ()>(f: F) -> (h: JoinHandle<()>)
